@@ -646,3 +646,203 @@ Proof.
   eexists. split; [vm_compute; reflexivity|]. split; vm_compute; reflexivity.
 Qed.
 Print Assumptions C15_every_load_fresh_shared_loader_refuted.
+
+(* ------------------------------------------------------------------ created tasks are ordinary tasks: the C01 / C02 / C05 statements on the growing table *)
+(* (replaces the caveat above C15_created_tasks_ordinary_partial, which is kept as the statement about the table)
+   Proofs: Proofs/DelayedStepP.v (the generator and the dispatcher loop cut into atomic transitions), Proofs/DelayedRunP.v
+   (run_status <-> reports in the trace, position of a node's generator <-> run_status), Proofs/DelayedDepP.v (the accounting
+   invariant of Proofs/DispatchInv.v on the growing table: every name in a node's task_dep / calc_dep lists is pending, being
+   iterated, waited for, or finished and recorded; queue discipline).  Everything below holds for every variant of the loader
+   branch, every table / creator output / oracle / flags / fuel (so for every prefix of a run), for tasks defined statically, tasks
+   created at run time, and placeholders whose node was reset to the created task of the same name: ExecNode.reset_task happens
+   while run_status is None, before anything of the node was handed to the runner.
+   Hypotheses: [init_ok d0] (only "no ExecNode yet, empty trace" is used) and, for the ordering statements, [fresh_queues d0]:
+   the dispatcher's ready / waiting queues are empty and no node is current -- what TaskControl.process leaves
+   (C15_selection_leaves_fresh_queues).
+   Runners: the serial runner unconditionally.  A script of runner calls may call execute_task twice for the same task, so for
+   scripts the statements hold under [wf_script] (Proofs/DelayedRunP.v), a BOOLEAN function of the script and the initial state
+   that checks the runner protocol against the answers the model computes: every OSelect k answers the DTask k the dispatcher
+   just yielded (nothing is sent to the dispatcher in between), every OExec k uses up one OSelect k that answered True, every
+   OResult k one OExec k -- what Runner, MRunner and MThreadRunner do (get_next_job / run_tasks); which node is sent back when,
+   and how executions and results of different tasks interleave, is unconstrained. *)
+From DoitV Require Import DelayedStepP DelayedRunP DelayedDepP DelayedCalcP DelayedRunEx.
+
+(* ONCE ONLY.  serial runner: no task's actions are started twice in a run ... *)
+Theorem C15_exec_once_serial : forall v keys creators wake_rank calc_rank continue_ always fuel d0,
+  init_ok d0 -> forall pre k post,
+  fst (run_serial v keys creators wake_rank calc_rank continue_ always fuel d0) = pre ++ Ev (EExecute k) :: post ->
+  ~ In (Ev (EExecute k)) pre /\ ~ In (Ev (EExecute k)) post.
+Proof. exact serial_exec_once. Qed.
+Print Assumptions C15_exec_once_serial.
+
+(* ... and every task gets at most one final report (success, failure, up-to-date, ignored) *)
+Theorem C15_one_final_report_serial : forall v keys creators wake_rank calc_rank continue_ always fuel d0,
+  init_ok d0 -> forall pre e post k,
+  fst (run_serial v keys creators wake_rank calc_rank continue_ always fuel d0) = pre ++ e :: post ->
+  is_final_of k e = true -> ~ final_in k pre /\ ~ final_in k post.
+Proof. exact serial_one_final. Qed.
+Print Assumptions C15_one_final_report_serial.
+
+(* the same for every runner that follows the protocol, every schedule *)
+Theorem C15_exec_once_any_schedule : forall v keys creators wake_rank calc_rank continue_ always fuel ops d0,
+  init_ok d0 -> wf_script v keys creators wake_rank calc_rank continue_ always fuel ops d0 = true -> forall pre k post,
+  fst (run_script v keys creators wake_rank calc_rank continue_ always fuel ops d0) = pre ++ Ev (EExecute k) :: post ->
+  ~ In (Ev (EExecute k)) pre /\ ~ In (Ev (EExecute k)) post.
+Proof. exact script_exec_once. Qed.
+Print Assumptions C15_exec_once_any_schedule.
+
+Theorem C15_one_final_report_any_schedule : forall v keys creators wake_rank calc_rank continue_ always fuel ops d0,
+  init_ok d0 -> wf_script v keys creators wake_rank calc_rank continue_ always fuel ops d0 = true -> forall pre e post k,
+  fst (run_script v keys creators wake_rank calc_rank continue_ always fuel ops d0) = pre ++ e :: post ->
+  is_final_of k e = true -> ~ final_in k pre /\ ~ final_in k post.
+Proof. exact script_one_final. Qed.
+Print Assumptions C15_one_final_report_any_schedule.
+
+(* DEPENDENCIES FIRST.  [node_after_serial .. k] is the ExecNode of k as the run leaves it; its task object [dn_task] is the one
+   that was executed (a node's task object only changes in reset_task, before the node is handed over) -- for a placeholder
+   that reached the loader branch: the CREATED task.  [deps_of nd] = the node's accumulated task_dep and calc_dep lists
+   (ExecNode / task.task_dep as the dispatcher grows them: the task's declared task_dep and calc_dep -- including the implicit
+   task_dep that set_implicit_deps / the loader branch derive from file_dep on targets -- plus everything finished calc_dep tasks
+   returned), its setup-tasks, and (again) the declared task_dep / calc_dep of the task object.
+   Whenever the actions of k start, every x of them has a success or up-to-date report earlier in the trace. *)
+Theorem C15_created_deps_first_serial : forall v keys creators wake_rank calc_rank continue_ always fuel d0,
+  init_ok d0 -> fresh_queues d0 ->
+  forall pre k post x,
+    fst (run_serial v keys creators wake_rank calc_rank continue_ always fuel d0) = pre ++ Ev (EExecute k) :: post ->
+    In x (deps_of (node_after_serial v keys creators wake_rank calc_rank continue_ always fuel d0 k)) -> good_in x pre.
+Proof. exact serial_deps_first. Qed.
+Print Assumptions C15_created_deps_first_serial.
+
+Theorem C15_created_deps_first_any_schedule : forall v keys creators wake_rank calc_rank continue_ always fuel ops d0,
+  init_ok d0 -> fresh_queues d0 ->
+  wf_script v keys creators wake_rank calc_rank continue_ always fuel ops d0 = true ->
+  forall pre k post x,
+    fst (run_script v keys creators wake_rank calc_rank continue_ always fuel ops d0) = pre ++ Ev (EExecute k) :: post ->
+    In x (deps_of (node_after_script v keys creators wake_rank calc_rank continue_ always fuel ops d0 k)) -> good_in x pre.
+Proof. exact script_deps_first. Qed.
+Print Assumptions C15_created_deps_first_any_schedule.
+
+(* ... and what the calc_dep tasks of k returned -- [returned ct]: values['task_dep'], the producers of values['file_dep'] and
+   values['calc_dep'] of the task object ct of a calc_dep task c -- was merged into the node's lists before k was handed over
+   (invariant MG of Proofs/DelayedCalcP.v, as ok_mrg of Proofs/DispatchInv.v), hence was reported good before k's actions start *)
+Theorem C15_calc_dep_results_first_serial : forall v keys creators wake_rank calc_rank continue_ always fuel d0,
+  init_ok d0 -> fresh_queues d0 ->
+  forall pre k post c x,
+    fst (run_serial v keys creators wake_rank calc_rank continue_ always fuel d0) = pre ++ Ev (EExecute k) :: post ->
+    In c (dn_ac (node_after_serial v keys creators wake_rank calc_rank continue_ always fuel d0 k)) ->
+    In x (returned (dt (dn_task (node_after_serial v keys creators wake_rank calc_rank continue_ always fuel d0 c)))) ->
+    good_in x pre.
+Proof. exact serial_calc_returned_first. Qed.
+Print Assumptions C15_calc_dep_results_first_serial.
+
+Theorem C15_calc_dep_results_first_any_schedule : forall v keys creators wake_rank calc_rank continue_ always fuel ops d0,
+  init_ok d0 -> fresh_queues d0 ->
+  wf_script v keys creators wake_rank calc_rank continue_ always fuel ops d0 = true ->
+  forall pre k post c x,
+    fst (run_script v keys creators wake_rank calc_rank continue_ always fuel ops d0) = pre ++ Ev (EExecute k) :: post ->
+    In c (dn_ac (node_after_script v keys creators wake_rank calc_rank continue_ always fuel ops d0 k)) ->
+    In x (returned (dt (dn_task (node_after_script v keys creators wake_rank calc_rank continue_ always fuel ops d0 c)))) ->
+    good_in x pre.
+Proof. exact script_calc_returned_first. Qed.
+Print Assumptions C15_calc_dep_results_first_any_schedule.
+
+(* non-vacuity: the run cd_run above (created d with calc_dep k, k returns task_dep h): the hypotheses hold, k is a calc_dep of the
+   reset node of d and h is what k returned *)
+Example C15_calc_dep_results_nonvacuous :
+  init_ok cd_d0 /\ fresh_queues cd_d0 /\
+  dn_ac (node_after_serial VHead [1; 2; 6; 7] cd_creators (fun _ _ => 0) (fun x => x) false false 200 cd_d0 2) = [6] /\
+  returned (dt (dn_task (node_after_serial VHead [1; 2; 6; 7] cd_creators (fun _ _ => 0) (fun x => x) false false 200 cd_d0 6))) = [7].
+Proof.
+  split; [|split; [repeat split|vm_compute; split; reflexivity]].
+  constructor; try reflexivity.
+  - intros T b. unfold cd_d0, ex_ld; simpl. destruct (T =? 2); simpl; discriminate.
+  - intros k T e. unfold cd_d0, tab_get, cd_tab, ex_ld; simpl.
+    destruct (k =? 1); simpl; [discriminate|]. destruct (k =? 2); simpl.
+    + intro H; inversion H; subst. simpl. intro H2; inversion H2; subst. left; reflexivity.
+    + destruct (k =? 6); simpl; [discriminate|]. destruct (k =? 7); simpl; discriminate.
+Qed.
+
+(* what is executed is never a placeholder object: the task object of an executed node has loader = DelayedLoaded *)
+Theorem C15_executed_task_is_no_placeholder_serial : forall v keys creators wake_rank calc_rank continue_ always fuel d0,
+  init_ok d0 -> fresh_queues d0 -> forall k,
+  In (Ev (EExecute k)) (fst (run_serial v keys creators wake_rank calc_rank continue_ always fuel d0)) ->
+  dt_loader (dn_task (node_after_serial v keys creators wake_rank calc_rank continue_ always fuel d0 k)) = None.
+Proof. exact serial_executed_no_loader. Qed.
+Print Assumptions C15_executed_task_is_no_placeholder_serial.
+
+Theorem C15_executed_task_is_no_placeholder_any_schedule : forall v keys creators wake_rank calc_rank continue_ always fuel ops d0,
+  init_ok d0 -> fresh_queues d0 ->
+  wf_script v keys creators wake_rank calc_rank continue_ always fuel ops d0 = true -> forall k,
+  In (Ev (EExecute k)) (fst (run_script v keys creators wake_rank calc_rank continue_ always fuel ops d0)) ->
+  dt_loader (dn_task (node_after_script v keys creators wake_rank calc_rank continue_ always fuel ops d0 k)) = None.
+Proof. exact script_executed_no_loader. Qed.
+Print Assumptions C15_executed_task_is_no_placeholder_any_schedule.
+
+(* CONTAINMENT.  a task with a dependency that got a failure or ignore report -- anywhere in the run -- is never executed in
+   that run, --continue or not (the trigger `executed` of a loader is a task_dep of the placeholder only: see
+   C15_created_subtask_keeps_failed_trigger_refuted for what a failed trigger does to the created task) *)
+Theorem C15_failed_dependency_never_runs_serial : forall v keys creators wake_rank calc_rank continue_ always fuel d0,
+  init_ok d0 -> fresh_queues d0 ->
+  forall k x e,
+    let tr := fst (run_serial v keys creators wake_rank calc_rank continue_ always fuel d0) in
+    In x (deps_of (node_after_serial v keys creators wake_rank calc_rank continue_ always fuel d0 k)) ->
+    In e tr -> is_final_of x e = true -> is_good_of x e = false -> ~ In (Ev (EExecute k)) tr.
+Proof. exact serial_bad_dep_never_runs. Qed.
+Print Assumptions C15_failed_dependency_never_runs_serial.
+
+Theorem C15_failed_dependency_never_runs_any_schedule : forall v keys creators wake_rank calc_rank continue_ always fuel ops d0,
+  init_ok d0 -> fresh_queues d0 ->
+  wf_script v keys creators wake_rank calc_rank continue_ always fuel ops d0 = true ->
+  forall k x e,
+    let tr := fst (run_script v keys creators wake_rank calc_rank continue_ always fuel ops d0) in
+    In x (deps_of (node_after_script v keys creators wake_rank calc_rank continue_ always fuel ops d0 k)) ->
+    In e tr -> is_final_of x e = true -> is_good_of x e = false -> ~ In (Ev (EExecute k)) tr.
+Proof. exact script_bad_dep_never_runs. Qed.
+Print Assumptions C15_failed_dependency_never_runs_any_schedule.
+
+(* the queue hypothesis is what every selection on a freshly loaded table leaves *)
+Theorem C15_selection_leaves_fresh_queues : forall sv base_of is_rx rmatch rx_name auto tab ld tg order sel d0,
+  process_sel sv base_of is_rx rmatch rx_name auto (loaded tab ld tg) order sel = Some d0 -> fresh_queues d0.
+Proof. exact process_sel_fresh_queues. Qed.
+Print Assumptions C15_selection_leaves_fresh_queues.
+
+(* non-vacuity (Proofs/DelayedRunEx.v).  1 = pre, 2 = d = create_after(executed='pre'), 5 = lib (static); the creator yields the
+   group d (task_dep d:a), 3 = d:a (task_dep lib, file_dep 20) and 4 = d:b (target 20): d:a depends on d:b implicitly *)
+Example C15_created_deps_hypotheses_nonvacuous : init_ok rx_d0 /\ fresh_queues rx_d0 /\ keys_ok rx_keys rx_d0.
+Proof. exact rx_hypotheses. Qed.
+
+(* the run: pre, the creator, lib and d:b (the dependencies of the created d:a), d:a, the created group d last;
+   the reset node of d depends on d:a (the created task's task_dep), its task object has no loader *)
+Example C15_created_deps_trace_nonvacuous :
+  enc_dtrace (fst (run_serial VHead rx_keys rx_creators (fun _ _ => 0) (fun x => x) false false 200 rx_d0)) =
+  [1;1; 5;1; 7;1; 6;1;  14;0;2;2;  1;5; 5;5; 7;5; 6;5;  1;4; 5;4; 7;4; 6;4;  1;3; 5;3; 7;3; 6;3;  1;2; 5;2; 7;2; 6;2;  10]%Z
+  /\ snd (run_serial VHead rx_keys rx_creators (fun _ _ => 0) (fun x => x) false false 200 rx_d0) = 0.
+Proof. exact rx_trace. Qed.
+
+Example C15_created_deps_of_nonvacuous :
+  deps_of (node_after_serial VHead rx_keys rx_creators (fun _ _ => 0) (fun x => x) false false 200 rx_d0 3) = [5; 4; 5; 4] /\
+  deps_of (node_after_serial VHead rx_keys rx_creators (fun _ _ => 0) (fun x => x) false false 200 rx_d0 2) = [3; 3] /\
+  dt_loader (dn_task (node_after_serial VHead rx_keys rx_creators (fun _ _ => 0) (fun x => x) false false 200 rx_d0 2)) = None.
+Proof. exact rx_deps. Qed.
+
+(* a two-worker script on the same table (lib and d:b in flight together) follows the protocol; one that calls execute_task twice
+   does not -- and does execute twice: the protocol hypothesis of the *_any_schedule theorems above cannot be dropped *)
+Example C15_protocol_check_nonvacuous :
+  wf_script VHead rx_keys rx_creators (fun _ _ => 0) (fun x => x) false false 200 rx_ops rx_d0 = true /\
+  filter (fun e => match e with Ev (EExecute _) => true | _ => false end)
+         (fst (run_script VHead rx_keys rx_creators (fun _ _ => 0) (fun x => x) false false 200 rx_ops rx_d0)) =
+  [Ev (EExecute 1); Ev (EExecute 5); Ev (EExecute 4); Ev (EExecute 3); Ev (EExecute 2)] /\
+  snd (run_script VHead rx_keys rx_creators (fun _ _ => 0) (fun x => x) false false 200 rx_ops rx_d0) = 0.
+Proof. exact rx_script_wf. Qed.
+
+Theorem C15_exec_once_without_protocol_refuted :
+  let ops := [OSend None; OSelect 1; OExec 1; OExec 1] in
+  wf_script VHead rx_keys rx_creators (fun _ _ => 0) (fun x => x) false false 200 ops rx_d0 = false /\
+  n_exec 1 (fst (run_script VHead rx_keys rx_creators (fun _ _ => 0) (fun x => x) false false 200 ops rx_d0)) = 2%nat.
+Proof. exact rx_script_not_wf. Qed.
+Print Assumptions C15_exec_once_without_protocol_refuted.
+
+(* the scripts of the earlier examples of this file follow the protocol as well *)
+Example C15_protocol_check_two_workers_example :
+  wf_script VHead mn_keys mn_creators (fun _ _ => 0) (fun x => x) false false 200 mn_ops (mn_d0 [1; 2; 3]) = true.
+Proof. vm_compute. reflexivity. Qed.
